@@ -1,7 +1,8 @@
-# KF-C07-1 (C07): `await model.trigger(name)` with a name the AsyncMachine does not know, in a state that
-# ignores invalid triggers: Machine returns False; AsyncMachine inherits the plain function
-# Machine._get_trigger, which returns the plain value False - awaiting it raises TypeError.
-# (HierarchicalAsyncMachine binds the coroutine function trigger_event instead and returns False.)
+# KF-C07-1 (C07), FIXED in /repo as D30 - kept as a regression: `await model.trigger(name)` with a name the
+# AsyncMachine does not know, in a state that ignores invalid triggers.  Machine returns False; AsyncMachine used to
+# inherit the plain function Machine._get_trigger, whose plain False cannot be awaited (TypeError).  Now
+# AsyncMachine._get_trigger is a coroutine function that hands the base result through: False, and AttributeError
+# on a state that does not ignore invalid triggers (Coq: Props/C07.v C07_unknown_event).
 import asyncio
 from transitions import Machine
 from transitions.extensions.asyncio import AsyncMachine, HierarchicalAsyncMachine
@@ -27,4 +28,16 @@ async def go(m):
 ra, rh = asyncio.run(go(ma)), asyncio.run(go(mh))
 print('Machine: False   AsyncMachine:', ra, '  HierarchicalAsyncMachine:', rh)
 assert rh is False
-assert ra == 'TypeError'          # the finding
+assert ra is False                # was 'TypeError' before the fix
+
+ms2, ma2 = Model(), Model()
+Machine(ms2, states=['A'], initial='A', auto_transitions=False)
+AsyncMachine(ma2, states=['A'], initial='A', auto_transitions=False)
+try:
+    ms2.trigger('nope')
+    rs2 = None
+except AttributeError:
+    rs2 = 'AttributeError'
+ra2 = asyncio.run(go(ma2))
+print('not ignoring -> Machine:', rs2, '  AsyncMachine:', ra2)
+assert rs2 == ra2 == 'AttributeError'
